@@ -138,18 +138,53 @@ func VH_C02_pair(vm *VM, inst int) {
 	// idempotent: resolving again changes nothing
 	verify(vIdenticalV(vPlain(p1, env), p1), "unify: substitution not idempotent")
 
-	// clause-head unification agrees: h(T1') stored, h(T2) called
-	cp := rCopy(t1, nil, &rRename{})
-	okA, errA := Assertz(vm, NewAtom("c02h").Apply(cp), Success, nil).Force(context.Background())
+	// clause-head unification agrees, in both directions: h(T1', Vars1') stored, h(T2, Out) called (and T2 stored, T1
+	// called). The clause's own variables are exported through the second argument, so that what the head code binds
+	// them to is observed as well.
+	c02Head(vm, "c02h", t1, t2, env0)
+	c02Head(vm, "c02g", t2, t1, env0)
+}
+
+func c02TermVars(t Term, acc []Variable) []Variable {
+	switch x := t.(type) {
+	case Variable:
+		for _, v := range acc {
+			if v == x {
+				return acc
+			}
+		}
+		return append(acc, x)
+	case Compound:
+		for i := 0; i < x.Arity(); i++ {
+			acc = c02TermVars(x.Arg(i), acc)
+		}
+	}
+	return acc
+}
+
+func c02Head(vm *VM, name string, head, goal Term, env0 *Env) {
+	ren := &rRename{}
+	cp := rCopy(head, nil, ren)
+	cvars := c02TermVars(cp, nil)
+	cvt := make([]Term, len(cvars))
+	for i, v := range cvars {
+		cvt[i] = v
+	}
+	okA, errA := Assertz(vm, NewAtom(name).Apply(cp, List(cvt...)), Success, nil).Force(context.Background())
 	verify(okA && errA == nil, "harness: assertz failed")
-	_, hok := rUnify(cp, t2, nil)
-	var got Term
-	okH, errH := Call(vm, NewAtom("c02h").Apply(t2), func(e *Env) *Promise { got = vPlain(t2, e); return Bool(true) }, env0).Force(context.Background())
+	hs, hok := rUnify(cp, goal, nil)
+	out := NewVariable()
+	var got, gotOut Term
+	okH, errH := Call(vm, NewAtom(name).Apply(goal, out), func(e *Env) *Promise {
+		got, gotOut = vPlain(goal, e), vPlain(out, e)
+		return Bool(true)
+	}, env0).Force(context.Background())
 	verify(errH == nil, "head unification raised an error")
 	verify(okH == hok, "head unification: verdict differs from =/2 on a renamed copy")
 	if okH {
-		hs, _ := rUnify(cp, t2, nil)
-		verify(vVariantV(got, rResolve(t2, hs), &rRename{}, &rRename{}), "head unification: result differs from the most general unifier's instance")
+		// goal instance and the clause variables' bindings, compared together so that sharing between them counts
+		want := NewAtom("r").Apply(rResolve(goal, hs), rResolve(List(cvt...), hs))
+		verify(vVariantV(NewAtom("r").Apply(got, gotOut), want, &rRename{}, &rRename{}), "head unification: result differs from the most general unifier's instance")
 	}
 }
 
